@@ -43,10 +43,14 @@ type frame struct {
 }
 
 type Violation struct {
-	kind  string
-	msg   string
-	model map[string]uint64
-	trace []string
+	kind      string
+	msg       string
+	model     map[string]uint64
+	hvals     []NondetVal
+	decisions []Dec
+	entry     string
+	bounds    map[string]int64
+	reached   []string
 }
 
 type Exec struct {
@@ -82,6 +86,13 @@ type Exec struct {
 	lits         map[int]bool
 	clock        int
 	timers       []*TimerObj
+	bounds       map[string]int64
+	fixed        map[string]uint64 // concrete re-execution: every nondet takes the model's value
+	allowPanic   bool
+	notes        []string
+	hnondets     []*Term // harness-level nondets in call order (the replay vector)
+	hnames       []string
+	nInternal    int
 }
 
 func (ex *Exec) feasible(c *Term) bool {
@@ -197,14 +208,60 @@ func (ex *Exec) concretize(t *Term) uint64 {
 	panic(unsupported("concretize: too many values"))
 }
 
+// nondet creates an engine-internal nondeterministic value (stub choices).
 func (ex *Exec) nondet(s Sort) *Term {
-	v := ex.ts.Var(s, fmt.Sprintf("n%d_%d", len(ex.nondets), int(s)))
+	name := fmt.Sprintf("e%d_%d", ex.nInternal, int(s))
+	ex.nInternal++
+	return ex.mkNondet(s, name)
+}
+
+// nondetH creates a harness-level nondeterministic input; these form the native replay vector.
+func (ex *Exec) nondetH(s Sort) *Term {
+	name := fmt.Sprintf("h%d_%d", len(ex.hnames), int(s))
+	ex.hnames = append(ex.hnames, name)
+	t := ex.mkNondet(s, name)
+	ex.hnondets = append(ex.hnondets, t)
+	return t
+}
+
+func (ex *Exec) mkNondet(s Sort, name string) *Term {
+	if ex.fixed != nil {
+		if s == BoolSort {
+			return ex.ts.Bool(ex.fixed[name] != 0)
+		}
+		return ex.ts.Const(s, ex.fixed[name])
+	}
+	v := ex.ts.Var(s, name)
 	ex.nondets = append(ex.nondets, v)
 	return v
 }
 
+func (ex *Exec) harnessVals(m map[string]uint64) []NondetVal {
+	out := make([]NondetVal, 0, len(ex.hnames))
+	for i, n := range ex.hnames {
+		t := ex.hnondets[i]
+		v := m[n]
+		if t.IsConst() {
+			v = t.val
+		}
+		out = append(out, NondetVal{Name: n, Bits: int(t.sort), Val: v})
+	}
+	return out
+}
+
 func (ex *Exec) violation(kind, msg string, cond *Term) {
 	// cond: condition under which violation happens (nil = always on this path)
+	if ex.fixed != nil {
+		if cond == nil || cond.IsTrue() {
+			ex.viols = append(ex.viols, Violation{kind: kind, msg: msg, model: ex.fixed})
+		} else if !cond.IsConst() {
+			ex.notes = append(ex.notes, "non-constant condition in concrete re-execution: "+msg)
+		}
+		return
+	}
+	if cond != nil && cond.IsFalse() {
+		return
+	}
 	res, m := ex.sol.CheckModel(cond, ex.nondets)
 	if res == "unsat" {
 		if cond == nil {
@@ -217,7 +274,12 @@ func (ex *Exec) violation(kind, msg string, cond *Term) {
 		ex.inconcl++
 		return
 	}
-	ex.viols = append(ex.viols, Violation{kind: kind, msg: msg, model: m})
+	var rl []string
+	for k := range ex.reached {
+		rl = append(rl, k)
+	}
+	ex.viols = append(ex.viols, Violation{kind: kind, msg: msg, model: m, hvals: ex.harnessVals(m),
+		decisions: append([]Dec(nil), ex.decisions...), reached: rl})
 }
 
 func (ex *Exec) constValue(c *ssa.Const) Value {
